@@ -560,6 +560,7 @@ func keyRun(ctx *Ctx) {
 	t2 := time.Now()
 	keyRunRtPart(env)
 	keyRunCustomPart(env)
+	keyRunBeyond14Part(env)
 	keyRunOutsidePart(env)
 	keyRegSweep(env)
 	t3 := time.Now()
